@@ -25,6 +25,9 @@ func (obj List) Append(b []byte) []byte {
 
 // Simplify the Object into a []any.
 func (obj List) Simplify() any {
+	if m := obj.simplifyAssoc(); m != nil {
+		return m
+	}
 	out := make([]any, len(obj))
 	for i, o := range obj {
 		if o == nil {
@@ -34,6 +37,37 @@ func (obj List) Simplify() any {
 		}
 	}
 	return out
+}
+
+// simplifyAssoc returns a map if the list is an association list with
+// strings as keys, the form SimpleObject gives a map[string]any, otherwise
+// nil.
+func (obj List) simplifyAssoc() map[string]any {
+	if len(obj) == 0 {
+		return nil
+	}
+	for _, o := range obj {
+		pair, ok := o.(List)
+		if !ok || len(pair) != 2 {
+			return nil
+		}
+		if _, ok = pair[0].(String); !ok {
+			return nil
+		}
+		if _, ok = pair[1].(Tail); !ok {
+			return nil
+		}
+	}
+	m := make(map[string]any, len(obj))
+	for _, o := range obj {
+		pair := o.(List)
+		if v := pair[1].(Tail).Value; v != nil {
+			m[string(pair[0].(String))] = v.Simplify()
+		} else {
+			m[string(pair[0].(String))] = nil
+		}
+	}
+	return m
 }
 
 // Equal returns true if this Object and the other are equal in value.
